@@ -74,6 +74,7 @@ def run(ctx):
     scope_pairing(ctx, "C12.b.scopes")
     c_exhaustive(ctx)
     c_nested_flow(ctx)
+    c_module_level_total(ctx)
     d_consumers(ctx)
     d_label_tables(ctx)
     try:
@@ -263,6 +264,57 @@ def c_nested_flow(ctx):
               ("the grammar cannot produce a flow definition inside a suite" if not nested_possible else "expand_elements rejects a Flow element inside a flow body (ColangSyntaxError at load time)") if ok else
               "the grammar accepts `flow` in any suite (suite -> stmt -> def_stmt -> flow_def) and nothing rejects or expands the resulting Flow element: an (accidentally indented) flow "
               "silently becomes a dead composite element of the outer flow - its body is never expanded and the flow does not exist for `await`/`activate`", line=ee.lineno)
+
+
+PARSER2 = "nemoguardrails/colang/v2_x/lang/parser.py"
+
+
+def c_module_level_total(ctx):
+    """The grammar allows every statement at module level (`_statements: stmt*`), so a flow definition can sit under a module-level `if`/`while`/`when`.  parse_content walks the
+    module-level elements and keeps flows and imports; an element of a kind that no branch names must be REJECTED - if the walk just goes on to the next element, the statement and
+    every flow defined inside it are dropped without a word: the loader accepted the file, the flow is never compiled.
+    Decided path-sensitively: with every `element["_type"] == <name>` test false, the loop body can only leave through a raise."""
+    from ..pycfg import CFG
+    from ..source import truth
+    mod = ctx.tree.ast(PARSER2)
+    fn = find_function(mod, "parse_content", "ColangParser")
+    if fn is None:
+        raise AnalysisError("ColangParser.parse_content not found", anchor=PARSER2 + "::ColangParser.parse_content")
+    loops = [l for l in walk_no_nested(fn) if isinstance(l, ast.For) and isinstance(l.target, ast.Name)
+             and any(isinstance(c, ast.Subscript) and src(c.value) == l.target.id and isinstance(c.slice, ast.Constant) and c.slice.value == "_type" for c in ast.walk(l))]
+    ctx.floor("C12.c.module-level-total", PARSER2, "walk over the module-level elements in parse_content", len(loops), 1)
+    cfg = CFG(fn)
+    for l in loops:
+        v = l.target.id
+
+        def type_test(a, v=v):
+            return isinstance(a, ast.Compare) and len(a.ops) == 1 and isinstance(a.ops[0], (ast.Eq, ast.In)) and any(
+                isinstance(x, ast.Subscript) and src(x.value) == v and isinstance(x.slice, ast.Constant) and x.slice.value == "_type" for x in ast.walk(a))
+
+        def type_test_neg(a, v=v):
+            return isinstance(a, ast.Compare) and len(a.ops) == 1 and isinstance(a.ops[0], (ast.NotEq, ast.NotIn)) and any(
+                isinstance(x, ast.Subscript) and src(x.value) == v and isinstance(x.slice, ast.Constant) and x.slice.value == "_type" for x in ast.walk(a))
+        facts = {type_test: False, type_test_neg: True}
+        header = cfg.node_of(l.iter)
+        if header is None or header.kind != "test":
+            raise AnalysisError("no CFG node for the loop header in parse_content", anchor=PARSER2 + "::ColangParser.parse_content")
+        seen, stack = set(), [m for m, lab in header.succ if lab is True]
+        escaped = None
+        while stack:
+            x = stack.pop()
+            if x in seen or x is cfg.raise_exit:
+                continue
+            if x is header or x is cfg.exit:
+                escaped = x
+                break
+            seen.add(x)
+            t = truth(x.ast, facts) if x.kind == "test" and isinstance(x.ast, ast.expr) else None
+            stack.extend(m for m, lab in x.succ if not (t is not None and lab in (True, False) and lab is not t))
+        ok = escaped is None
+        ctx.check("C12.c.module-level-total", PARSER2, "ColangParser.parse_content", "module-level element of a kind no branch names", ok,
+                  "an element that is neither taken (flow, import) nor named as inert (comment, empty line) is rejected with a syntax error" if ok else
+                  "the walk over the module-level elements goes on to the next element when no branch names the element's kind: `if ...:` / `while` / `when` at module level is "
+                  "dropped silently TOGETHER WITH the flows defined inside it (accepted by the loader, never compiled), and stray module-level statements are ignored", line=l.lineno)
 
 
 # ---------------------------------------------------------------------------------
